@@ -26,6 +26,17 @@ std::string stmt_message(Stmt const& s)
 }
 
 // exactly once, per-thread order, integrity, identity — as an exact per (sink, worker) sequence with optional elements
+// the line a sink without override pattern must be handed for a statement of logger L (outside C16)
+std::string expected_statement(LoggerInfo const& L, JEntry const& e)
+{
+  switch (L.pat)
+  {
+  case 1: return L.name + "|" + e.msg + "\n";
+  case 2: return std::string{kLevelCodes[e.level]} + " " + e.tid + " " + e.msg + "\n";
+  default: return e.msg + "\n";
+  }
+}
+
 void oracle_delivery(World& W)
 {
   bool precondition = true;
@@ -161,6 +172,16 @@ void oracle_delivery(World& W)
             return;
           }
         }
+        if (!is_prop("C16"))
+        {
+          std::string expect = expected_statement(L, e);
+          if (e.statement != expect)
+          {
+            fail(W, "statement " + id + " of logger " + L.name + " (pattern \"" + kLoggerPatterns[L.pat] + "\") reached sink " + std::to_string(sk) +
+                      " formatted as \"" + esc(e.statement, 80) + "\", expected \"" + esc(expect, 80) + "\"");
+            return;
+          }
+        }
         if (is_prop("C16") && !err_text)
         {
           std::string expect = W.sinks[sk].has_override
@@ -291,6 +312,12 @@ void oracle_backtrace(World& W)
         if (e.ts != s.ts) { fail(W, "statement " + id + " replayed with timestamp " + std::to_string(e.ts) + ", its log call read " + std::to_string(s.ts)); return; }
         if (e.tid != std::to_string(W.workers[s.w - 1].w->tid)) { fail(W, "statement " + id + " replayed with a foreign thread id"); return; }
         if (pad != make_pad(s.w, s.seq, s.padlen)) { fail(W, "statement " + id + " payload corrupted"); return; }
+        if (e.statement != expected_statement(L, e))
+        {
+          fail(W, "statement " + id + " of logger " + L.name + " (pattern \"" + kLoggerPatterns[L.pat] + "\") reached sink " + std::to_string(sk) +
+                    " formatted as \"" + esc(e.statement, 80) + "\", expected \"" + esc(expected_statement(L, e), 80) + "\"");
+          return;
+        }
         {
           std::string want_named;
           if (s.kind == SKind::NamedBacktrace) want_named = "a=" + std::to_string(s.w) + ";b=" + std::to_string(s.seq) + ";c=" + make_pad(s.w, s.seq, s.padlen) + ";";
